@@ -154,8 +154,9 @@ let handle (cmd : string) (rest : string) : string =
             | 'r' ->
                 if !mutex_held then (deferred := !deferred @ [ LRegister; LSpawn; LAcceptDequeue ]; [])
                 else [ LRegister; LSpawn; LAcceptDequeue ]
-            | '0' -> [ LSessClose O; LSessDone O ]
-            | '1' -> [ LSessClose (S O); LSessDone (S O) ]
+            | '0' | '1' -> []     (* the peer goes away: the session runs up to its conn.Close(), which is held *)
+            | 'a' -> [ LSessClose O; LSessDone O ]
+            | 'b' -> [ LSessClose (S O); LSessDone (S O) ]
             | 'S' -> mutex_held := true; [ LShCloseDone ]
             | 'k' -> mutex_held := false; let d = !deferred in deferred := []; [ LShCloseListener ] @ d @ [ LShStartWaiter ]
             | 'x' -> [ LCtxExpire ]
